@@ -451,10 +451,15 @@ impl<'lexer> Lexer<'lexer> {
     }
     let mut buffer: [char; BUF_SIZE] = [WS; BUF_SIZE];
     for (offset, value) in buffer.iter_mut().enumerate() {
-      if let Some(ch) = self.char_at(offset) {
-        if !is_whitespace(ch) {
-          *value = ch
-        };
+      match (self.char_at(offset), self.char_at(offset + 1)) {
+        // a comment ends a token like a white space does, the rest of the buffer remains blank
+        (Some('/'), Some('/')) | (Some('/'), Some('*')) => break,
+        (Some(ch), _) => {
+          if !is_whitespace(ch) {
+            *value = ch
+          }
+        }
+        _ => {}
       }
     }
     buffer
